@@ -455,6 +455,36 @@ func c01Spaces(c *fw.Ctx) {
 			}
 		})
 
+	c.Space("subnet-prefixes", "OPT with a client-subnet option for every source prefix length 0..32 (IPv4) and 0..128 (IPv6) of the all-ones address and of 192.0.2.0 / 2001:db8:: patterns (address cut to ⌈n/8⌉ octets, bits behind the prefix zero, RFC 7871 §6), scope 0 and scope = source: pack==layout, unpack==original, repack==octets; non-trivial: the prefix length is not a multiple of 8", true,
+		func(emit func(func(*fw.R))) {
+			pats := map[uint16][][]byte{1: {{255, 255, 255, 255}, {192, 0, 2, 129}}, 2: {bytes.Repeat([]byte{0xff}, 16), {0x20, 0x01, 0x0d, 0xb8, 0xca, 0xfe, 0x81, 0x7f, 1, 2, 3, 4, 5, 6, 7, 0x99}}}
+			for fam := uint16(1); fam <= 2; fam++ {
+				maxp := 32
+				if fam == 2 {
+					maxp = 128
+				}
+				for n := 0; n <= maxp; n++ {
+					fam, n := fam, n
+					emit(func(r *fw.R) {
+						if n%8 != 0 {
+							r.Nontrivial()
+						}
+						for _, pat := range pats[fam] {
+							for _, scope := range []int{0, n} {
+								addr := append([]byte(nil), pat[:(n+7)/8]...)
+								if n%8 != 0 {
+									addr[len(addr)-1] &= 0xff << (8 - n%8)
+								}
+								data := append([]byte{0, byte(fam), byte(n), byte(scope)}, addr...)
+								ar := &wire.RR{Name: nil, Type: 41, Class: 1232, TTL: 0, Vals: []wire.Val{{Opts: []wire.Option{{Code: 8, Data: data}}}}}
+								c01RR(r, ar, "OPT", true)
+							}
+						}
+					})
+				}
+			}
+		})
+
 	c.Space("optional-fields", "RDATA layouts with an optional trailing field that the reference table writes in full: ISDN without its sub-address (RFC 1183 §3.2: <ISDN-address> alone is well-formed) — unpacks to the address, and packing the result reproduces the octets; non-trivial: all", true,
 		func(emit func(func(*fw.R))) {
 			emit(func(r *fw.R) {
